@@ -619,8 +619,9 @@ def select__distinct_values(self: XPathFunction, context: ta.ContextType = None)
                     yield value
                     results.append(value)
 
-            elif value not in results:
-                yield value
+            elif not any(isinstance(x, bool) is isinstance(value, bool) and x == value
+                         for x in results):
+                yield value  # an xs:boolean is not equal to a number (True == 1 in Python)
                 results.append(value)
 
     if len(self) < 2:
